@@ -1,6 +1,304 @@
 package harness
 
+import (
+	"fmt"
+	"testing"
+	"time"
+
+	"github.com/256dpi/lungo"
+	"go.mongodb.org/mongo-driver/bson"
+	"go.mongodb.org/mongo-driver/bson/primitive"
+
+	"verif/harness/model"
+)
+
 // C08 - the change log is a faithful, gap-free, ordered record of committed changes.
 
+func init() {
+	register(&Property{ID: "C08", Gen: genC08, Exec: func(t *testing.T, p *Plan) *Outcome {
+		return execSeq(t, p, seqHooks{prop: "C08", model: true})
+	}})
+}
+
+func oplogOf(cat *lungo.Catalog) []bson.D {
+	var out []bson.D
+	for _, d := range cat.Namespaces[lungo.Oplog].Documents.List {
+		out = append(out, toD(d))
+	}
+	return out
+}
+
+func eventTS(ev bson.D) (primitive.Timestamp, bool) {
+	ts, ok := model.Get(ev, "_id.ts").(primitive.Timestamp)
+	return ts, ok
+}
+
+func tsLess(a, b primitive.Timestamp) bool { return a.T < b.T || (a.T == b.T && a.I < b.I) }
+
+type contents map[string]map[string]bson.D // namespace -> key(_id) -> document
+
+func contentsOf(cat *lungo.Catalog) contents {
+	out := contents{}
+	for _, h := range handles(cat) {
+		if h == lungo.Oplog {
+			continue
+		}
+		m := map[string]bson.D{}
+		for _, d := range cat.Namespaces[h].Documents.List {
+			dd := toD(d)
+			m[valStr(model.Get(dd, "_id"))] = dd
+		}
+		out[h.String()] = m
+	}
+	return out
+}
+
+func (e *Env) oplogSettings() (minSize, maxSize int, minAge, maxAge time.Duration) {
+	c := e.plan.Cfg
+	minSize, maxSize = c.MinOplog, c.MaxOplog
+	minAge, maxAge = time.Duration(c.MinAgeS)*time.Second, time.Duration(c.MaxAgeS)*time.Second
+	// documented defaults of lungo.Options
+	if minSize == 0 {
+		minSize = 100
+	}
+	if maxSize == 0 {
+		maxSize = 1000
+	}
+	if minAge == 0 {
+		minAge = 5 * time.Minute
+	}
+	if maxAge == 0 {
+		maxAge = time.Hour
+	}
+	return
+}
+
 // checkOplogStep is evaluated at every commit S(k-1) -> S(k).
-func checkOplogStep(e *Env, c *CommitRec) *Violation { return nil }
+func checkOplogStep(e *Env, c *CommitRec) *Violation {
+	if c.Prev == nil {
+		return nil
+	}
+	prev, cur := oplogOf(c.Prev), oplogOf(c.Cat)
+	// (a) prefix removal + append
+	d := 0
+	if len(cur) > 0 {
+		first, _ := eventTS(cur[0])
+		for d < len(prev) {
+			ts, _ := eventTS(prev[d])
+			if ts == first {
+				break
+			}
+			d++
+		}
+	} else {
+		d = len(prev)
+	}
+	kept := prev[d:]
+	if len(kept) > len(cur) {
+		return violation("C08", "log-not-prefix-trimmed", "", fmt.Sprintf("commit %d: %d earlier events should remain after trimming %d, the new log has only %d", c.Seq, len(kept), d, len(cur)))
+	}
+	for i := range kept {
+		if !model.Same(kept[i], cur[i]) {
+			return violation("C08", "log-not-prefix-trimmed", "", fmt.Sprintf("commit %d: retained event %d differs from the earlier log (events were removed from the middle or rewritten)", c.Seq, i))
+		}
+	}
+	appended := cur[len(kept):]
+	// ids strictly increasing and unique over the whole run
+	for i := 1; i < len(cur); i++ {
+		a, _ := eventTS(cur[i-1])
+		b, ok := eventTS(cur[i])
+		if !ok || !tsLess(a, b) {
+			return violation("C08", "event-id-not-increasing", "", fmt.Sprintf("commit %d: event ids %v then %v", c.Seq, a, b))
+		}
+	}
+	for _, ev := range appended {
+		ts, _ := eventTS(ev)
+		if e.maxTS != (primitive.Timestamp{}) && !tsLess(e.maxTS, ts) {
+			key := ""
+			if e.tsEpoch != c.Epoch {
+				key = "after-restart"
+			}
+			return violation("C08", "event-id-reused", key, fmt.Sprintf("commit %d: event id %v is not greater than an id used earlier in the run (%v)", c.Seq, ts, e.maxTS))
+		}
+		e.maxTS, e.tsEpoch = ts, c.Epoch
+	}
+	// (b)+(c)+(d) replay the appended events onto the previous contents
+	state := contentsOf(c.Prev)
+	for _, ev := range appended {
+		op, _ := model.Get(ev, "operationType").(string)
+		db, _ := model.Get(ev, "ns.db").(string)
+		coll, _ := model.Get(ev, "ns.coll").(string)
+		nsName := db + "." + coll
+		key := valStr(model.Get(ev, "documentKey._id"))
+		switch op {
+		case "insert", "replace", "update":
+			full, ok := model.Get(ev, "fullDocument").(bson.D)
+			if !ok {
+				return violation("C08", "event-malformed", op, fmt.Sprintf("commit %d: %s event without fullDocument", c.Seq, op))
+			}
+			if state[nsName] == nil {
+				state[nsName] = map[string]bson.D{}
+			}
+			old, had := state[nsName][key]
+			if op == "insert" && had {
+				return violation("C08", "event-without-change", "insert-existing", fmt.Sprintf("commit %d: insert event for %s %s which already exists", c.Seq, nsName, key))
+			}
+			if op != "insert" {
+				if !had {
+					return violation("C08", "event-without-change", op+"-missing", fmt.Sprintf("commit %d: %s event for %s %s which does not exist", c.Seq, op, nsName, key))
+				}
+				if model.Same(old, full) {
+					return violation("C08", "event-without-change", op+"-noop", fmt.Sprintf("commit %d: %s event for %s %s although the document did not change", c.Seq, op, nsName, key))
+				}
+			}
+			if op == "update" {
+				upd, _ := model.Get(ev, "updateDescription.updatedFields").(bson.D)
+				rem, _ := model.Get(ev, "updateDescription.removedFields").(bson.A)
+				next := old
+				var err error
+				for _, f := range upd {
+					next, err = model.SetPath(next, f.Key, f.Value)
+					if err != nil {
+						break
+					}
+				}
+				if err == nil {
+					for _, r := range rem {
+						if s, ok := r.(string); ok {
+							next = model.UnsetPath(next, s)
+						}
+					}
+				}
+				if err != nil || !model.Same(model.Canon(next).(bson.D), model.Canon(full).(bson.D)) {
+					return violation("C08", "update-description-wrong", "", fmt.Sprintf("commit %d: applying updatedFields %s / removedFields %v to %s gives %s, the event's fullDocument is %s", c.Seq, docStr(upd), rem, docStr(old), docStr(next), docStr(full)))
+				}
+			}
+			state[nsName][key] = full
+		case "delete":
+			if _, had := state[nsName][key]; !had {
+				return violation("C08", "event-without-change", "delete-missing", fmt.Sprintf("commit %d: delete event for %s %s which does not exist", c.Seq, nsName, key))
+			}
+			delete(state[nsName], key)
+		case "drop":
+			delete(state, nsName)
+		case "dropDatabase":
+			for n := range state {
+				if len(n) > len(db) && n[:len(db)+1] == db+"." {
+					delete(state, n)
+				}
+			}
+		default:
+			return violation("C08", "event-malformed", "type", fmt.Sprintf("commit %d: unknown operationType %q", c.Seq, op))
+		}
+	}
+	want := contentsOf(c.Cat)
+	for n, docs := range want {
+		got := state[n]
+		if len(got) != len(docs) {
+			return violation("C08", "replay-mismatch", "", fmt.Sprintf("commit %d: replaying the %d new events gives %d documents in %s, the committed state has %d", c.Seq, len(appended), len(got), n, len(docs)))
+		}
+		for k, dd := range docs {
+			if g, ok := got[k]; !ok || !model.Same(g, dd) {
+				return violation("C08", "replay-mismatch", "", fmt.Sprintf("commit %d: replaying the new events gives %s for %s %s, the committed state has %s", c.Seq, docStr(g), n, k, docStr(dd)))
+			}
+		}
+	}
+	for n, docs := range state {
+		if _, ok := want[n]; !ok && len(docs) > 0 {
+			return violation("C08", "replay-mismatch", "", fmt.Sprintf("commit %d: replay leaves %d documents in %s which the committed state does not have", c.Seq, len(docs), n))
+		}
+	}
+	// (e) retention
+	return checkRetention(e, c, append(append([]bson.D{}, prev...), appended...), d)
+}
+
+// checkRetention: full is the log before trimming (oldest first), d the number of trimmed events.
+func checkRetention(e *Env, c *CommitRec, full []bson.D, d int) *Violation {
+	minSize, maxSize, minAge, maxAge := e.oplogSettings()
+	now := c.WallIn
+	if n := len(full); n > 0 {
+		// the log's notion of time never runs backwards (wall clock steps)
+		if ts, ok := eventTS(full[n-1]); ok && time.Unix(int64(ts.T), 0).After(now) {
+			now = time.Unix(int64(ts.T), 0)
+		}
+	}
+	age := func(i int) time.Duration {
+		ts, _ := eventTS(full[i])
+		return now.Sub(time.Unix(int64(ts.T), 0))
+	}
+	const tol = 1500 * time.Millisecond
+	if d > 0 {
+		e.probe("retention-trimmed")
+	}
+	for i := 0; i < d; i++ {
+		if i >= len(full)-minSize {
+			return violation("C08", "retention-removed-protected", "min-size", fmt.Sprintf("commit %d: event %d of %d was removed although the newest %d events are protected", c.Seq, i, len(full), minSize))
+		}
+		if minAge > 0 && age(i) < minAge-tol {
+			return violation("C08", "retention-removed-protected", "min-age", fmt.Sprintf("commit %d: event %d (age %v) was removed although events younger than %v are protected", c.Seq, i, age(i), minAge))
+		}
+	}
+	if d < len(full) {
+		unprotected := d < len(full)-minSize && (minAge == 0 || age(d) > minAge+tol)
+		beyond := d < len(full)-maxSize || age(d) > maxAge+tol
+		if unprotected && beyond {
+			return violation("C08", "retention-not-applied", "", fmt.Sprintf("commit %d: oldest remaining event (index %d of %d, age %v) is beyond max size %d / max age %v and not protected by min size %d / min age %v", c.Seq, d, len(full), age(d), maxSize, maxAge, minSize, minAge))
+		}
+	}
+	return nil
+}
+
+func genC08(seed uint64, run int, tier string) *Plan {
+	r := newRNG(seed, 8)
+	g := newGen(r)
+	g.failing = 15
+	g.ids = 3 + r.IntN(3)
+	if r.IntN(2) == 0 {
+		g.colls = []string{"c0"}
+	}
+	if r.IntN(3) == 0 {
+		g.dbs = []string{"db", "db2"}
+	}
+	p := &Plan{Prop: "C08", Seed: seed, Run: run, Cfg: seqCfg(r)}
+	// retention settings: small sizes so trimming happens; ages from seconds to days
+	p.Cfg.MinOplog = 1 + r.IntN(6)
+	p.Cfg.MaxOplog = p.Cfg.MinOplog + r.IntN(8)
+	ages := []int64{1, 2, 5, 60, 600, 3600, 86400, 5 * 86400}
+	p.Cfg.MinAgeS = pick(r, ages...)
+	p.Cfg.MaxAgeS = pick(r, ages...)
+	if p.Cfg.MaxAgeS < p.Cfg.MinAgeS {
+		p.Cfg.MinAgeS, p.Cfg.MaxAgeS = p.Cfg.MaxAgeS, p.Cfg.MinAgeS
+	}
+	p.Cfg.ExpireMs = 24 * 3600 * 1000 // time advances by days: keep expiry ticks rare
+	tp := TaskPlan{Name: "client"}
+	tp.Ops = append(tp.Ops, g.seedOps(70)...)
+	n := 2 + r.IntN(14)
+	for i := 0; i < n; i++ {
+		op := g.crud()
+		if op.TTL != nil {
+			big := int32(100000000)
+			op.TTL = &big
+		}
+		tp.Ops = append(tp.Ops, op)
+		if r.IntN(3) == 0 {
+			// advance simulated time: fractions of a second up to days
+			ms := pick(r, int64(300), 1000, 1500, 5000, 61000, 601000, 3700000, 90000000)
+			tp.Ops = append(tp.Ops, Op{K: "sleep", Ms: ms})
+		}
+		if r.IntN(12) == 0 {
+			// wall clock steps forwards / backwards between calls
+			tp.Ops = append(tp.Ops, Op{K: "clock", Ms: pick(r, int64(5000), 3600000, 86400000, -5000, -3600000)})
+		}
+		if p.Cfg.Store == "file" && r.IntN(15) == 0 {
+			tp.Ops = append(tp.Ops, Op{K: "restart"})
+			if r.IntN(2) == 0 {
+				tp.Ops = append(tp.Ops, Op{K: "sleep", Ms: 1100})
+			}
+		}
+	}
+	if r.IntN(6) == 0 {
+		p.Faults = append(p.Faults, Fault{Kind: pick(r, "store-before", "store-after"), At: 1 + r.IntN(8)})
+	}
+	p.Tasks = []TaskPlan{tp}
+	return p
+}
